@@ -7,6 +7,7 @@ import (
 	"errors"
 	"fmt"
 	"net/url"
+	"sort"
 	"strconv"
 	"strings"
 	"time"
@@ -104,7 +105,13 @@ func (c *config) Decode(b []byte) error {
 }
 
 func (c *config) update(changes *config2.StringMap) error {
-	for key, value := range changes.Fields {
+	sortedKeys := make([]string, 0, len(changes.Fields))
+	for k := range changes.Fields {
+		sortedKeys = append(sortedKeys, k)
+	}
+	sort.Strings(sortedKeys)
+	for _, key := range sortedKeys {
+		value := changes.Fields[key]
 		switch key {
 		case Settings[MinLock]:
 			if sbValue, err := strconv.ParseFloat(value, 64); err != nil {
